@@ -189,3 +189,16 @@ claim("C20",
       "behaviour. The notifier's emit/suppress table is checked by path predicates; 'at most once per 120' is argued from that table.",
       "Trusts rustc MIR + extractor and the abstract transfer functions of lib/absint.py (String/str calls modelled: as_str, to_string, eq, clone).",
       "DESIGN.md §5 C20")
+
+claim("C17",
+      "symbolic path evaluation + fs/spawn effect inventory (interprocedural) + table agreement + ordering dominance per command arm",
+      "Decides per command, for the Linux build: backup copies exactly the three installed files to Backup/Package/<name> and the unit "
+      "file to Backup/; copy_files is the inverse map rooted at its source folder; delete removes the same three paths; restore/install "
+      "feed them the backup / packaged folder and take the unit file from Backup/ resp. the tool's directory; in main stop_service "
+      "precedes the copy and setup_service (unit -> enable -> start) follows, restore is behind the backup-exists test, purge removes only "
+      "the backup folder, uninstall deletes files only in package mode; every fs effect and process spawn reachable from main targets the "
+      "four system locations, the backup folder, the tool's log, systemctl or the packaged agent's --version; the extension runs backup "
+      "before install, restore only on Error, purge only on Success.",
+      "Trusts fs::copy fidelity, systemctl, rustc MIR + extractor; Windows code paths are not compiled here; arbitrary command sequences "
+      "beyond the per-command tables are not decided.",
+      "DESIGN.md §5 C17")
